@@ -167,11 +167,17 @@ structure St where
   recvLog : List (ConnId × Bool)
   /-- every pooled connection `Get` returned (most recent first) -/
   handLog : List Hand
+  /-- `cancelled i`: the `context.Context` goroutine `i` passes to `Get` is done (cancelled, or its deadline has
+  passed).  One context per worker — a delivery has one for its whole life — and it never becomes live again.
+  Written by nobody but the scheduler's `cancel` decision; `pool.go` itself never looks at the context, it only
+  passes it on to `cfg.New`. -/
+  cancelled : Nat → Bool
 
 inductive Who
   | task (i : Nat) (pick : Nat)
   | tick (d : Nat)
   | brk (c : ConnId)
+  | cancel (i : Nat)   -- the context of goroutine `i` is cancelled / times out, at whatever point `i` is parked
   deriving Repr, DecidableEq
 
 def init (cfg : Cfg) (progs : List (List Op)) : St :=
@@ -179,7 +185,7 @@ def init (cfg : Cfg) (progs : List (List Op)) : St :=
     retKey := fun _ => none, retAt := fun _ => 0,
     chans := [], keys := [], keysNil := false, lock := none, ticker := true,
     tasks := progs.map (fun p => { pc := .idle, prog := p, held := [] }),
-    closed := [], leaked := [], recvLog := [], handLog := [] }
+    closed := [], leaked := [], recvLog := [], handLog := [], cancelled := fun _ => false }
 
 /-- `p.keys[key]` -/
 def lookup (s : St) (k : Key) : Option ChanId :=
@@ -200,7 +206,7 @@ def pickOf (td : List ChanId) (p : Nat) : Option (ChanId × List ChanId) :=
     let h := if p ∈ td then p else h0
     some (h, td.erase h)
 
-/-- `p.cfg.New`: the caller gets a connection nobody has seen yet. -/
+/-- `p.cfg.New` with a live context: the caller gets a connection nobody has seen yet. -/
 def miss (s : St) (i : Nat) (t : Task) (k : Key) : St :=
   let c := s.fresh
   { setTask s i { t with pc := .idle, held := t.held ++ [(c, k)] } with
@@ -270,11 +276,15 @@ def stepTask (s : St) (i : Nat) (t : Task) (p : Nat) : Option St :=
       | .shutdown => some (setTask s i { t with pc := .sStop })
   | .wClose c => some { setTask s i { t with pc := .idle } with closed := c :: s.closed }
   | .kClose c => some { setTask s i { t with pc := .done } with closed := c :: s.closed }
-  /- ---------------- Get ---------------- -/
+  /- ---------------- Get ----------------
+  `p.cfg.New(ctx, key)` with a live context is `miss`: the caller gets a connection nobody has seen yet.  With a
+  context that is done (`s.cancelled i`) the dial fails and `Get` returns `(nil, ctx.Err())` — the cancellation
+  outcome of `Get`: no connection is created, the caller gets nothing (`setTask s i { t with pc := .idle }`).
+  Nothing else in `Get` looks at the context: a connection taken out of a bucket is handed out or closed. -/
   | .gLock k =>
     if s.lock.isSome then none else
     match lookup s k with
-    | none => some (miss s i t k)
+    | none => if s.cancelled i then some (setTask s i { t with pc := .idle }) else some (miss s i t k)
     | some h =>
       match s.chans[h]? with
       | none => some (panic s i t)
@@ -290,14 +300,15 @@ def stepTask (s : St) (i : Nat) (t : Task) (p : Nat) : Option St :=
   | .gDrain k h =>
     match recv s h with
     | .conn c s1 => some (spawnCloser s1 c)
-    | .closedEmpty => some { miss s i t k with lock := none }
+    | .closedEmpty =>
+      if s.cancelled i then some { setTask s i { t with pc := .idle } with lock := none } else some { miss s i t k with lock := none }
     | .wouldBlock => none
     | .noChan => some (panic s i t)
   | .gSel k h =>
     match recv s h with
     | .conn c s1 => some { setTask s1 i { t with pc := .gUsable k h c } with recvLog := (c, s.keysNil) :: s.recvLog }
-    | .closedEmpty => some (miss s i t k)
-    | .wouldBlock => some (miss s i t k)
+    | .closedEmpty => if s.cancelled i then some (setTask s i { t with pc := .idle }) else some (miss s i t k)
+    | .wouldBlock => if s.cancelled i then some (setTask s i { t with pc := .idle }) else some (miss s i t k)
     | .noChan => some (panic s i t)
   | .gUsable k h c =>
     if s.broken c then some (spawnCloser (setTask s i { t with pc := .gSel k h }) c)
@@ -412,6 +423,7 @@ def step (s : St) : Who → Option St
     | some t => stepTask s i t p
   | .tick d => some { s with now := s.now + d }
   | .brk c => if c < s.fresh then some { s with broken := fun x => if x = c then true else s.broken x } else none
+  | .cancel i => some { s with cancelled := fun x => if x = i then true else s.cancelled x }
 
 /-- A blocked or impossible step leaves the state as it is (the goroutine stays parked). -/
 def next (s : St) (w : Who) : St := (step s w).getD s
